@@ -279,13 +279,152 @@ class _Key:
     def __init__(self, v): self.v = v
     def __lt__(self, o): return True if self.v < o.v else False
 
+class Arr2:
+    """2-d array stand-in (rows x columns), only what _drop_repeats needs"""
+    def __init__(self, rows): self._r = [list(r) for r in rows]
+    @property
+    def shape(self): return (len(self._r), len(self._r[0]) if self._r else 0)
+    def __len__(self): return len(self._r)
+    def __eq__(self, o):
+        if isinstance(o, Arr2): return Arr2([[a == b for a, b in zip(r, q)] for r, q in zip(self._r, o._r)])
+        return Arr2([[a == o for a in r] for r in self._r])
+    __hash__ = None
+    def min(self, axis = None):
+        if axis != 1: raise Unsupported('minipd: Arr2.min(axis=%r)' % (axis,))
+        out = []
+        for r in self._r:
+            m = r[0]
+            for v in r[1:]: m = _and(m, v)
+            out.append(m)
+        return Arr(out)
+
+class Columns(list):
+    """column labels: a list that pandas code treats like an Index"""
+    pass
+
+class _FILoc:
+    def __init__(self, f): self.f = f
+    def __getitem__(self, i):
+        if isinstance(i, slice): return self.f._take(list(range(len(self.f)))[i])
+        n = len(self.f)
+        if i < -n or i >= n: raise IndexError('single positional indexer is out-of-bounds')
+        return Row({c: self.f._c[c][i] for c in self.f._cols}, self.f._i._l[i])
+
+class Row:
+    """one row of a frame (what DataFrame.iloc[i] returns: a Series indexed by the column names)"""
+    def __init__(self, cells, name): self.cells = cells; self.name = name
+
 class DataFrame:
-    """placeholder: multi-column frames are outside the model"""
-    def __init__(self, *a, **k): raise Unsupported('minipd: DataFrame is not modelled')
+    """frame with few columns and an index that may repeat labels (bitemporal stores): columns dict + label list"""
+    def __init__(self, data = None, index = None, columns = None):
+        if isinstance(data, Series):
+            if columns is None or len(columns) != 1: raise Unsupported('minipd: DataFrame(Series) needs exactly one column name')
+            self._cols = Columns(columns); self._c = {columns[0]: list(data._v)}; self._i = Index(data._i._l, data._i.name)
+        elif isinstance(data, dict):
+            self._cols = Columns(data.keys()); self._c = {k: list(v) for k, v in data.items()}
+            n = len(next(iter(self._c.values()))) if self._c else 0
+            self._i = _mk_index(index if index is not None else range(n))
+        elif data is None:
+            self._cols = Columns(columns or []); self._c = {c: [] for c in self._cols}; self._i = _mk_index(index or [])
+        else: raise Unsupported('minipd: DataFrame(%s)' % type(data).__name__)
+    def __len__(self): return len(self._i)
+    @property
+    def shape(self): return (len(self._i), len(self._cols))
+    @property
+    def index(self): return self._i
+    @index.setter
+    def index(self, new): self._i = _mk_index(new)
+    @property
+    def columns(self): return self._cols
+    @columns.setter
+    def columns(self, new):
+        new = list(new)
+        if len(new) != len(self._cols): raise ValueError('Length mismatch')
+        self._c = {n: self._c[o] for n, o in zip(new, self._cols)}; self._cols = Columns(new)
+    @property
+    def iloc(self): return _FILoc(self)
+    @property
+    def values(self): return Arr2([[self._c[c][i] for c in self._cols] for i in range(len(self))])
+    def __contains__(self, c): return c in self._cols
+    def copy(self):
+        f = DataFrame(); f._cols = Columns(self._cols); f._c = {c: list(v) for c, v in self._c.items()}; f._i = Index(self._i._l, self._i.name); return f
+    def _take(self, pos):
+        f = DataFrame(); f._cols = Columns(self._cols); f._c = {c: [self._c[c][i] for i in pos] for c in self._cols}; f._i = Index([self._i._l[i] for i in pos], self._i.name); return f
+    def __getitem__(self, item):
+        if isinstance(item, str):
+            if item not in self._c: raise KeyError(item)
+            return Series(self._c[item], Index(self._i._l, self._i.name), item)
+        if isinstance(item, Series): item = list(item._v)
+        if isinstance(item, (Arr, Mask)): item = list(item)
+        if isinstance(item, list) and len(item) == len(self) and all(isinstance(k, (bool, SymBool)) for k in item):
+            return self._take([i for i, k in enumerate(item) if k])                # forks on symbolic masks
+        if isinstance(item, list) and all(isinstance(k, str) for k in item):
+            f = self.copy(); f._cols = Columns(item); f._c = {c: list(self._c[c]) for c in item}; return f
+        raise Unsupported('minipd: DataFrame[%s]' % type(item).__name__)
+    def __setitem__(self, col, value):
+        if isinstance(value, (list, Arr)): vals = list(value)
+        elif isinstance(value, Series): vals = list(value._v)
+        else: vals = [value] * len(self)
+        if len(vals) != len(self): raise ValueError('Length of values does not match length of index')
+        if col not in self._c: self._cols.append(col)
+        self._c[col] = vals
+    def drop(self, columns = None, **kw):
+        if kw or columns is None: raise Unsupported('minipd: drop')
+        cols = [columns] if isinstance(columns, str) else list(columns)
+        for c in cols:
+            if c not in self._c: raise KeyError(c)
+        f = self.copy(); f._cols = Columns([c for c in self._cols if c not in cols]); f._c = {c: f._c[c] for c in f._cols}; return f
+    def ffill(self, **kw):
+        f = self.copy()
+        for c in f._cols: f._c[c] = Series(f._c[c], list(range(len(self)))).ffill()._v
+        return f
+    def sort_values(self, by, **kw):
+        """stable ascending sort by one column (pandas' default quicksort is an insertion sort, hence stable, on the < 16 rows used here)"""
+        if kw or not isinstance(by, str): raise Unsupported('minipd: sort_values options')
+        order = []
+        for i in range(len(self)):
+            pos = len(order)
+            for p, j in enumerate(order):
+                if self._c[by][i] < self._c[by][j]: pos = p; break
+            order.insert(pos, i)
+        return self._take(order)
+    def drop_duplicates(self, subset = None, keep = 'first'):
+        if keep != 'last' or not subset or len(subset) != 1: raise Unsupported('minipd: drop_duplicates variant')
+        col = self._c[subset[0]]; n = len(col)
+        keepers = [i for i in range(n) if not any(col[j] == col[i] for j in range(i + 1, n))]        # forks on symbolic equalities
+        return self._take(keepers)
+    def groupby(self, by):
+        if by != self._i.name: raise Unsupported('minipd: groupby other than by the index name')
+        keys = []
+        for t in self._i._l:
+            if not any(t == k for k in keys): keys.append(t)
+        keys = sorted(keys, key = _Key)
+        return _GroupBy(self, keys)
+    def __repr__(self): return 'minipd.DataFrame(%r, index=%r)' % (self._c, self._i._l)
+
+class _GroupBy:
+    def __init__(self, f, keys): self.f = f; self.keys = keys
+    def __iter__(self):
+        for k in self.keys:
+            yield k, self.f._take([i for i, t in enumerate(self.f._i._l) if t == k])
+    def apply(self, func, **kw):
+        rows = []; 
+        for k, sub in self:
+            r = func(sub)
+            if not isinstance(r, Row): raise Unsupported('minipd: groupby.apply result %s' % type(r).__name__)
+            rows.append((k, r))
+        f = DataFrame(); f._cols = Columns(self.f._cols); f._c = {c: [r.cells[c] for k, r in rows] for c in f._cols}; f._i = Index([k for k, r in rows], self.f._i.name)
+        return f
 
 def concat(objs, axis = 0, **kw):
     objs = list(objs)
     if axis != 0: raise Unsupported('minipd: concat(axis=1)')
+    if objs and all(isinstance(o, DataFrame) for o in objs):
+        cols = list(objs[0]._cols)
+        if any(list(o._cols) != cols for o in objs): raise Unsupported('minipd: concat of frames with different columns')
+        f = DataFrame(); f._cols = Columns(cols); f._c = {c: sum([list(o._c[c]) for o in objs], []) for c in cols}
+        f._i = Index(sum([list(o._i._l) for o in objs], []), objs[0]._i.name)
+        return f
     vals = []; labels = []
     for o in objs:
         if o is None: continue
@@ -333,6 +472,7 @@ class NPX:
         out = []
         for a in arrs: out += list(a)
         return Arr(out)
+    def __getitem_placeholder__(self): pass
     def array(self, x, **kw): return Arr(list(x))
     def minimum(self, a, b): return _elementwise(a, b, lambda x, y: _nanprop(x, y, lambda p, q: q if q < p else p))
     def maximum(self, a, b): return _elementwise(a, b, lambda x, y: _nanprop(x, y, lambda p, q: q if q > p else p))
